@@ -379,6 +379,9 @@ fn kit_applicable(c: &KitCase) -> bool {
         return false;
     }
     let form = kit.forms[c.form as usize];
+    if !form.pre.is_empty() || !form.post.is_empty() {
+        return false; // code around the comment on its line would be part of the first key
+    }
     if form.kind == FormKind::Md && form.open == "(" && matches!(c.rule, Rule::SortedRegex | Rule::UniqueRegex | Rule::UniqueRegexEol) {
         return false; // a title delimited by parentheses cannot hold the group's parentheses
     }
